@@ -37,3 +37,71 @@ def hdr_std(phase, kind, scal, prev, unwind=11):
     return ('    #[cfg_attr(kani, kani::proof)]\n    #[cfg_attr(kani, kani::unwind(%d))]\n%s'
             '    pub fn %s() { standard_check::<%d, %d, %s, %s>() }\n' % (unwind, MODEL_STUBS, hdr_std_name(phase, kind, scal, prev), phase, kind,
                                                                        "true" if scal else "false", "true" if prev else "false"))
+
+
+CORE_STUBS = MODEL_STUBS + (
+    '    #[cfg_attr(kani, kani::stub(f32::ceil, crate::decoder::state::verif_state::ceil32_model))]\n'
+    '    #[cfg_attr(kani, kani::stub(crate::decoder::cpu::rle::inverse_rle, crate::decoder::state::verif_state::inverse_rle_contract))]\n'
+    '    #[cfg_attr(kani, kani::stub(crate::decoder::cpu::gather::gather, crate::decoder::state::verif_state::gather_contract))]\n'
+    '    #[cfg_attr(kani, kani::stub(crate::decoder::cpu::idct::idct_channel, crate::decoder::state::verif_state::idct_channel_contract))]\n')
+
+HDR_BYTES, MB_STRIDE = 16, 24 + 6 * 8
+
+
+def core_c1_name(cls, nmb, shape):
+    return "c01_core_g%d_mb%d_s%d" % (cls, nmb, shape)
+
+
+def core_c1(cls, nmb, shape):
+    n = HDR_BYTES + nmb * MB_STRIDE
+    unwind = max(nmb + 3, 4 * cls * cls + 2, 6)
+    return ('    #[cfg_attr(kani, kani::proof)]\n    #[cfg_attr(kani, kani::unwind(%d))]\n%s'
+            '    #[cfg_attr(kani, kani::stub(f64::ceil, crate::decoder::state::verif_state::ceil64_class%d))]\n'
+            '    pub fn %s() { step_c1::<%d, %d, %d, %d>() }\n' % (unwind, CORE_STUBS, cls, core_c1_name(cls, nmb, shape), cls, nmb, n, shape))
+
+
+def core_zero_name(w, h):
+    return "c01_core_zero_%dx%d" % (w, h)
+
+
+def core_zero(w, h, nmb=1):
+    n = HDR_BYTES + nmb * MB_STRIDE
+    return ('    #[cfg_attr(kani, kani::proof)]\n    #[cfg_attr(kani, kani::unwind(8))]\n%s'
+            '    #[cfg_attr(kani, kani::stub(f64::ceil, crate::decoder::state::verif_state::ceil64_model))]\n'
+            '    pub fn %s() { step_zero::<%d, %d, %d>() }\n' % (CORE_STUBS, core_zero_name(w, h), w, h, n))
+
+
+def gblock_name(w, h, px, py):
+    return "c03_gather_block_%dx%d_at_%d_%d" % (w, h, px, py)
+
+
+def gblock(w, h, px, py):
+    return ('    #[cfg_attr(kani, kani::proof)]\n    #[cfg_attr(kani, kani::unwind(9))]\n'
+            '    pub fn %s() { block_check::<%d, %d, %d, %d, %d>() }\n' % (gblock_name(w, h, px, py), w, h, w * h, px, py))
+
+
+def gblock_all():
+    out = []
+    for (w, h) in ((1, 1), (8, 8), (9, 5), (16, 16), (17, 9)):
+        for px in range(0, w + 8, 8):
+            for py in range(0, h + 8, 8):
+                if px < w + 8 and py < h + 8:
+                    out.append((w, h, px, py))
+    return out
+
+
+def idct_name(kind, w, h):
+    return "c02_idct_%s_%dx%d" % (kind, w, h)
+
+
+def idct_inst(kind, w, h):
+    bw, bh = (w + 7) // 8, (h + 7) // 8
+    # the decoder rounds the level array up to whole macroblocks: blocks beyond the frame exist
+    bw2, bh2 = ((w + 15) // 16) * 2, ((h + 15) // 16) * 2
+    fn = "dc_check" if kind == "dc" else "contract_check"
+    return ('    #[cfg_attr(kani, kani::proof)]\n    #[cfg_attr(kani, kani::unwind(%d))]\n'
+            '    pub fn %s() { %s::<%d, %d, %d, %d, %d, %d>() }\n' % (max(9, bw2 * bh2 + 1), idct_name(kind, w, h), fn, w, h, w * h, bw2, bh2, bw2 * bh2))
+
+
+def idct_sizes():
+    return [(1, 1), (8, 8), (5, 3), (16, 16), (17, 9), (9, 17)]
